@@ -7,6 +7,7 @@ where symbolic data meets CPython control flow is SymBool.__bool__.
 """
 import itertools
 import math
+import os
 import time
 from fractions import Fraction
 
@@ -66,6 +67,9 @@ class Ctx:
         self._inst_facts = []
         self._explicit = {}
         self.small_hints = []
+        self.divmod_cache = {}
+        self.lemma_obligations = {}
+        self.ghost = {}
         self._leaf_seen = {}
         self._leaf_access = {}
         self._probe = None
@@ -124,6 +128,33 @@ class Ctx:
     # * entries carry a generation depth (0 = occurs in program/goal; d+1 = first produced while
     #   instantiating at a depth-d entry); only depth <= MAX_INST_DEPTH is used.
 
+    def push_goal_scope(self):
+        """Snapshot the instantiation state; Skolem indices / hints of one goal must not leak
+        into the next goal of the same path."""
+        return (
+            {k: list(v) for k, v in self.index_pool.items()},
+            dict(self._index_seen),
+            dict(self._pool_depth),
+            {k: list(v) for k, v in self._explicit.items()},
+            dict(self._leaf_seen),
+            {k: list(v) for k, v in self._leaf_access.items()},
+            set(self._inst_done),
+            list(self._inst_facts),
+            len(self.assumptions),
+            len(self.universals),
+            dict(self._patterns),
+            dict(self.divmod_cache),
+        )
+
+    def pop_goal_scope(self, snap):
+        (self.index_pool, self._index_seen, self._pool_depth, self._explicit, self._leaf_seen, self._leaf_access, self._inst_done, self._inst_facts, na, nu, self._patterns) = (
+            snap[0], snap[1], snap[2], snap[3], snap[4], snap[5], snap[6], snap[7], snap[8], snap[9], snap[10],
+        )
+        del self.assumptions[na:]
+        del self.universals[nu:]
+        self.divmod_cache = snap[11]
+        self._pool_version += 1
+
     def _cur_depth(self):
         return 0 if self._inst_depth is None else self._inst_depth + 1
 
@@ -168,6 +199,8 @@ class Ctx:
         dummies = tuple(SymNum(z3.Int("?d%d" % k), "int") for k in range(rank))
         self._probe = []
         self.in_spec += 1
+        n_assumed = len(self.assumptions)
+        n_univ = len(self.universals)
         try:
             try:
                 fn(*dummies)
@@ -177,8 +210,11 @@ class Ctx:
         finally:
             self._probe = None
             self.in_spec -= 1
+            del self.assumptions[n_assumed:]
+            del self.universals[n_univ:]
         pats = []
         seen = set()
+        partial = {}
         for leaf_id, idx in rec:
             comp = []
             for i in idx:
@@ -194,6 +230,11 @@ class Ctx:
                 if sig not in seen:
                     seen.add(sig)
                     pats.append(sig)
+            for pos, k in enumerate(comp):
+                if k is not None:
+                    partial.setdefault(k, set()).add((leaf_id, pos, len(comp)))
+        if not pats and rank > 1 and len(partial) == rank:
+            pats.append(("multi", tuple(sorted(partial[k]) for k in range(rank))))
         return pats
 
     def _candidates(self, ui, rank, pats):
@@ -202,6 +243,25 @@ class Ctx:
             key = (rank,) + tuple(_key(i) for i in idx)
             out.append((idx, self._pool_depth.get(key, 0)))
         for leaf_id, comp in pats:
+            if leaf_id == "multi":
+                import itertools as _it
+
+                per = []
+                for srcs in comp:
+                    vals, seen_v = [], set()
+                    for lid, pos, ln in srcs:
+                        for acc in self._leaf_access.get(lid, []):
+                            if len(acc) != ln:
+                                continue
+                            d = self._leaf_seen.get((lid, ln) + tuple(_key(i) for i in acc), 0)
+                            kk = _key(acc[pos])
+                            if kk not in seen_v and d <= 1:
+                                seen_v.add(kk)
+                                vals.append((acc[pos], d))
+                    per.append(vals[:10])
+                for combo in _it.product(*per):
+                    out.append((tuple(v for v, _ in combo), max(d for _, d in combo)))
+                continue
             for acc in self._leaf_access.get(leaf_id, []):
                 if len(acc) != len(comp):
                     continue
@@ -267,16 +327,28 @@ class Ctx:
             if r == z3.unsat:
                 self.last_backend = "z3(linear abstraction)"
                 return "unsat", None
-            s = z3.Solver()
-            s.set("timeout", tmo)
-            for f in fs:
-                s.add(f)
-            r = s.check()
+            # z3's non-linear engine is seed sensitive: default seed first, then a few more seeds
+            budget = [(0, min(tmo, 10000))] + ([(sd, min(tmo, 8000)) for sd in (1, 2, 3)] if tmo > 10000 else [])
+            for seed, t_ms in budget:
+                s = z3.Solver()
+                s.set("timeout", t_ms)
+                if seed:
+                    s.set("random_seed", seed)
+                    s.set("smt.random_seed", seed)
+                for f in fs:
+                    s.add(f)
+                r = s.check()
+                if r != z3.unknown:
+                    break
             self.last_backend = "z3"
             if r == z3.sat:
                 return "sat", s.model()
             if r == z3.unsat:
                 return "unsat", None
+            dump = os.environ.get("VERIF_DUMP")
+            if dump:
+                with open(os.path.join(dump, "q%d_%d.smt2" % (os.getpid(), self.solver_calls)), "w") as fh:
+                    fh.write(s.to_smt2())
             return "unknown", None
         finally:
             self.solver_seconds += time.time() - t0
@@ -1060,7 +1132,7 @@ def sym_len(x):
 class PathResult:
     def __init__(self, c, outcome, exc=None):
         self.decisions = list(c.decisions)
-        self.obligations = c.obligations
+        self.obligations = c.obligations + ([] if c.prefix else list(c.lemma_obligations.values()))
         self.outcome = outcome
         self.exc = exc
         self.events = c.events
